@@ -23,7 +23,7 @@ import hydrolib
 import rhdparams
 import vlib
 
-KEEP = ("it.begin", "src.d", "cont.draw", "cont.send", "trav", "reemit", "prem", "term.set", "it.end")
+KEEP = ("it.begin", "src.d", "cont.draw", "cont.send", "trav", "reemit", "reemit.ids", "prem", "term.set", "it.end")
 
 
 def sched_cfg(nt, n, cap, nb, reemit, budget):
